@@ -248,6 +248,8 @@ type Client struct {
 	Ver  mqttp.ProtocolVersion
 	buf  []byte
 	done chan struct{}
+	// LastRaw holds the bytes of the most recent packet taken off the stream (also when decoding failed)
+	LastRaw []byte
 }
 
 func (b *Broker) Dial() *Client {
@@ -283,6 +285,7 @@ func (c *Client) Recv(timeout time.Duration) (mqttp.IFace, error) {
 	deadline := time.Now().Add(timeout)
 	for {
 		if n := framedLen(c.buf); n > 0 && len(c.buf) >= n {
+			c.LastRaw = append([]byte{}, c.buf[:n]...)
 			pkt, _, err := mqttp.Decode(c.Ver, c.buf[:n])
 			c.buf = append([]byte{}, c.buf[n:]...)
 			if err != nil {
